@@ -44,7 +44,7 @@ func (h *queryHarness) Gen(r *Rand, tier string, clean bool) any {
 	u := genUniverseZ(r, r.Range(4, 12), rich, false, h.prop == "C03")
 	c := &QueryCase{Graphs: genGraphs(r, u, 3), Knobs: genKnobs(r)}
 	o := sopts{qopts: qopts{clean: clean, maxClauses: 3, aliases: 0.3, bounds: 0.5, crossKind: 0.15}, global: 0.15}
-	if r.Chance(0.15) {
+	if r.Chance(0.15) || (tier == "thorough" && r.Chance(0.3)) {
 		o.maxClauses = 4
 	}
 	switch h.prop {
